@@ -250,6 +250,7 @@ class LabeledDirectedGraph {
     void clearEdges() {
         for (VertexIndex i : *this)
             adjacencyList[i].clear();
+        edgeLabels.clear();
         edgeNumber = 0;
     }
 
